@@ -160,8 +160,13 @@ class StoreModel:
         g = self.cfg(c, name)
         sc = self._strconsts(g, c)
         effs = {}
+        # the connection as a context manager: leaving `with <connection>:` normally commits (sqlite3), an exception rolls back
+        conns = {unparse(x.func.value) for m_ in c.methods.values() for x in ast.walk(m_)
+                 if isinstance(x, ast.Call) and isinstance(x.func, ast.Attribute) and (x.func.attr in ("commit", "rollback", "cursor") or (x.func.attr.startswith("execute") and is_self_attr(x.func.value)))}
         for n in g.live:
             lst = []
+            if n.kind == "with_exit" and any(unparse(i.context_expr) in conns for i in n.stmt.items):
+                lst.append(("COMMIT", n))
             for e in node_exprs(n):
                 calls = [x for x in walk_no_nested(e) if isinstance(x, ast.Call)]
                 calls.sort(key=lambda x: (x.end_lineno or 0, x.end_col_offset or 0))  # inner calls complete first
